@@ -29,7 +29,7 @@ BUDGET = {'quick': 240, 'thorough': 3000}
 
 
 def shards(tier):
-    return e1.std_shards(tier, with_p=True, with_big=True)
+    return e1.std_shards(tier, with_p=True, with_big=True, with_hist=True)
 
 
 def atoms_obs(c):
